@@ -1,8 +1,10 @@
 '''Bounded run-time harness for C19 (front-end static files and access control).
 
 Static files: real temp directory trees (two site roots, files outside them,
-symlinks inside pointing outside) and request paths from a segment grammar are
-given to the real dawgie.fe._static / StaticContent.render_GET; every file that
+symlinks inside pointing outside, sibling directories of the roots whose names
+extend a root's name (fe_old, site_old: a string-prefix containment test accepts
+them), directories inside the roots whose index.html is a symlink to an outside
+file) and request paths from a segment grammar are given to the real dawgie.fe._static / StaticContent.render_GET; every file that
 lies outside both roots carries a unique marker in its *content* only, and the
 returned bytes must never contain such a marker.
 
@@ -33,7 +35,12 @@ BOUND = (
     'seeded 5-segment paths over the full alphabet; access: every registered endpoint x '
     '{GET,POST,PUT,DELETE,HEAD} x {no client certs, certs + anonymous (TLS without cert / plain transport), '
     'certs + certificate} x {default hook, hook raising Exception, hook raising BaseException, hook that '
-    'cannot be imported} x {Resource.render, render_<METHOD>} (always exhaustive)'
+    'cannot be imported} x {Resource.render, render_<METHOD>} (always exhaustive); static, directed part (both '
+    'tiers, same 2 root configurations): all paths over the 9-symbol alphabet {.., ., empty, sub, secret.txt, '
+    'index.html, fe_old, site_old (sibling directories of the roots whose names have the root name as a string '
+    'prefix, holding outside files and an index.html), docs (a directory inside each root whose index.html is '
+    'a symlink to an outside file)}: quick 1-3 segments x 4 variants (+ render_GET for <= 2 segments); '
+    'thorough 1-4 segments x 4 variants and 5 segments x 1 rotating variant'
 )
 
 REPO = os.environ.get('VERIF_REPO', '/repo')
@@ -145,6 +152,19 @@ def _mktree(base: str) -> dict:
     os.symlink(os.path.join(base, 'secret.txt'), os.path.join(base, 'site', 'lnk_file'))
     os.symlink('../..', os.path.join(base, 'site', 'sub', 'lnk_up'))
     os.symlink('fe', os.path.join(base, 'fe_link'))
+    # siblings of the roots whose names extend the root's name (string-prefix containment accepts them)
+    out('fe_old/secret.txt')
+    out('fe_old/index.html')
+    out('site_old/secret.txt')
+    out('site_old/index.html')
+    out('fe_old/sub/secret.txt')
+    # directories inside the roots whose index.html leaves the roots
+    os.makedirs(os.path.join(base, 'fe', 'docs'))
+    os.symlink('../../secret.txt', os.path.join(base, 'fe', 'docs', 'index.html'))
+    os.makedirs(os.path.join(base, 'site', 'docs'))
+    os.symlink(os.path.join(base, 'outer', 'secret.txt'), os.path.join(base, 'site', 'docs', 'index.html'))
+    os.makedirs(os.path.join(base, 'site', 'sub', 'docs'))
+    os.symlink('../../../outer/o.txt', os.path.join(base, 'site', 'sub', 'docs', 'index.html'))
     return {
         'outside': outside,
         'cfg': {
@@ -162,6 +182,9 @@ ALPHABET = [
     'fe', 'site',
     'lnk_dir', 'lnk_file', 'lnk_up', 'lnk_in',
 ]
+# directed part: prefix-named siblings of the roots and directories whose index.html is a link leaving the roots
+SIBLINGS = ('fe_old', 'site_old')
+DIRECTED = ['..', '.', '', 'sub', 'secret.txt', 'index.html', 'fe_old', 'site_old', 'docs']
 VARIANTS = [('/', False, False), ('', True, True), ('//', False, True), ('/', True, False)]
 
 
@@ -170,6 +193,10 @@ def _path(segs, tree) -> str:
 
 
 def _kind(segs) -> str:
+    if any(s in SIBLINGS for s in segs):
+        return 'sibling-prefix'
+    if 'docs' in segs:
+        return 'index-symlink'
     if any(s.startswith('lnk_') for s in segs):
         return 'symlink'
     if '<ABS>' in segs:
@@ -220,6 +247,12 @@ def _classify(tree, cfg, segs) -> str:
 
 
 REDUCED = [x for x in ALPHABET if x not in ('a.txt', 'o.txt', 'pages', 'site', 'fe', 'lnk_in')]
+ALPHABETS = {'full': ALPHABET, 'reduced': REDUCED, 'directed': DIRECTED}
+
+
+def _only_old(segs) -> bool:
+    '''paths of the directed alphabet that the main alphabet already enumerates (skipped: no double counting)'''
+    return all(s in ALPHABET for s in segs)
 
 
 def _units(tier: str, rng: random.Random) -> list:
@@ -227,10 +260,14 @@ def _units(tier: str, rng: random.Random) -> list:
     if tier == 'quick':
         sampled = [tuple(rng.choice(ALPHABET) for _ in range(rng.choice([4, 5]))) for _ in range(3000)]
         return [[('prod', 1, (), 'full', 'all'), ('prod', 2, (), 'full', 'all'), ('prod', 3, (), 'full', 'one'),
-                 ('list', sampled, 'one')]]
+                 ('list', sampled, 'one'),
+                 ('prod', 1, (), 'directed', 'all'), ('prod', 2, (), 'directed', 'all'),
+                 ('prod', 3, (), 'directed', 'all')]]
     units = [[('prod', 1, (), 'full', 'all'), ('prod', 2, (), 'full', 'all'), ('prod', 3, (), 'full', 'all')]]
     units += [[('prod', 4, (a,), 'full', 'all')] for a in ALPHABET]
     units += [[('prod', 5, (a,), 'reduced', 'one')] for a in REDUCED]
+    units.append([('prod', n, (), 'directed', 'all') for n in (1, 2, 3, 4)])
+    units += [[('prod', 5, (a,), 'directed', 'one')] for a in DIRECTED]
     for _ in range(10):
         units.append([('list', [tuple(rng.choice(ALPHABET) for _ in range(5)) for _ in range(10000)], 'one')])
     return units
@@ -242,7 +279,9 @@ def _expand(unit):
             yield segs, unit[2]
     else:
         _p, n, prefix, alpha, variants = unit
-        for rest in itertools.product(ALPHABET if alpha == 'full' else REDUCED, repeat=n - len(prefix)):
+        for rest in itertools.product(ALPHABETS[alpha], repeat=n - len(prefix)):
+            if alpha == 'directed' and _only_old(prefix + rest):
+                continue
             yield prefix + rest, variants
 
 
@@ -483,6 +522,8 @@ def run(tier: str, seed: int) -> dict:
     samples = out['samples'] + [
         _case('A', ('..', 'secret.txt'), VARIANTS[0], '_static'),
         _case('B', ('sub', 'lnk_up', 'lnk_file'), VARIANTS[1], '_static'),
+        _case('A', ('..', 'fe_old', 'secret.txt'), VARIANTS[0], '_static'),
+        _case('B', ('docs',), VARIANTS[0], '_static'),
         _case('A', ('lnk_in', ''), VARIANTS[2], 'StaticContent'),
     ]
     return {
@@ -493,7 +534,9 @@ def run(tier: str, seed: int) -> dict:
             'configurations with 4 (leading slashes, isdep, request) variants through fe._static (+ once '
             'through StaticContent.render_GET for paths of <= 2 segments); a (configuration, path) is counted '
             'distinct/non-trivial when it designates something that exists (inside or outside the roots) for '
-            'at least one root.  access: one case per (endpoint, method, caller, hook, entry point), all '
+            'at least one root; the directed part adds every tuple over the 9-symbol alphabet that names a '
+            'prefix-named sibling of a root or a directory whose index.html is a symlink leaving the roots '
+            '(tuples already in the main grammar are skipped).  access: one case per (endpoint, method, caller, hook, entry point), all '
             'distinct'
         ),
         'exhaustive': tier == 'thorough',
